@@ -5,7 +5,9 @@
 // when Store.isStopping is set, because WriteVolumeNeedle passes `fsync && s.isStopping`).
 // Every call is stamped on a global atomic counter before it is made (Inv) and after it has
 // returned (Res); one case = one recorded history (<= 10 calls) + a read of every key with
-// every cookie after all goroutines have joined + the .dat size and the needle-map entries.
+// every cookie after all goroutines have joined + the .dat size, the records of the .dat file in
+// file order (ScanVolumeFile) and the needle-map entry of every key.  The volume's .dat backend
+// is wrapped (storage.VerifBackend, hook verif_c38.go) to count the appends per worker batch.
 // The Coq side decides linearizability of the recorded history (check/C38.v).
 package main
 
@@ -22,6 +24,7 @@ import (
 
 	"github.com/chrislusf/seaweedfs/weed/storage"
 	"github.com/chrislusf/seaweedfs/weed/storage/needle"
+	"github.com/chrislusf/seaweedfs/weed/storage/super_block"
 	"github.com/chrislusf/seaweedfs/weed/storage/types"
 	"github.com/chrislusf/seaweedfs/weed/util"
 	"github.com/chrislusf/seaweedfs/weed/util/fla9"
@@ -58,7 +61,7 @@ type opRec struct {
 }
 
 var (
-	keys    = []uint64{1, 2}
+	keys    = []uint64{7, 5, 3, 1} // first written in descending order most of the time: the CompactMap shifts
 	cookies = []uint32{0x11, 0x2222}
 	names   = [][]byte{nil, []byte("a"), []byte("n1")}
 	mimes   = [][]byte{nil, []byte("t/x")}
@@ -199,9 +202,45 @@ type program struct {
 	stopAt  int // "stop-midway": spin length before SetStopping
 }
 
+// scanner collects (offset, id, cookie, Size) of every record of a .dat file.
+type scanner struct{ recs []string }
+
+func (sc *scanner) VisitSuperBlock(super_block.SuperBlock) error { return nil }
+func (sc *scanner) ReadNeedleBody() bool                          { return false }
+func (sc *scanner) VisitNeedle(n *needle.Needle, offset int64, h, b []byte) error {
+	sc.recs = append(sc.recs, fmt.Sprintf("Rs %d %d %d %d", offset, uint64(n.Id), uint32(n.Cookie), int32(n.Size)))
+	return nil
+}
+
+// witness programs of C01's findings 0 and 1 seen through the concurrent API: thread 0 runs the
+// finding on key 7 (sequentially, so the verdict does not depend on the schedule), thread 1
+// works on key 5 at the same time and must still answer per specification.
+func witness(k int) program {
+	other := []opSpec{
+		{kind: kWrite, key: 5, cookie: 0x11, data: []byte{200, 1}},
+		{kind: kRead, key: 5, cookie: 0x11},
+		{kind: kDelete, key: 5, cookie: 0x11},
+		{kind: kRead, key: 5, cookie: 0x11},
+	}
+	if k == 0 {
+		// an empty payload is served to any cookie
+		return program{mode: "witness-0", threads: [][]opSpec{{
+			{kind: kWrite, key: 7, cookie: 0x11, data: nil},
+			{kind: kRead, key: 7, cookie: 0x2222},
+		}, other}}
+	}
+	// same id+cookie+bytes, other name: acknowledged as unchanged, the old name stays
+	return program{mode: "witness-1", threads: [][]opSpec{{
+		{kind: kWrite, key: 7, cookie: 0x11, data: []byte{201}, name: []byte("a"), flags: 0x02},
+		{kind: kWrite, key: 7, cookie: 0x11, data: []byte{201}, name: []byte("n1"), flags: 0x02},
+		{kind: kRead, key: 7, cookie: 0x11},
+	}, other}}
+}
+
 func genProgram(r *hx.Rng, mode string) program {
 	p := program{mode: mode}
-	ng := r.Range(2, 4)
+	ng := r.Range(2, 5)
+	dirty := mode == "dirty"
 	total := 0
 	main := map[uint64]uint32{}
 	for _, k := range keys {
@@ -220,7 +259,7 @@ func genProgram(r *hx.Rng, mode string) program {
 		var ops []opSpec
 		for j := 0; j < nops; j++ {
 			o := opSpec{key: keys[r.Intn(len(keys))]}
-			if r.Chance(3, 4) {
+			if r.Chance(3, 5) {
 				o.key = keys[0] // most calls contend on one key
 			}
 			o.cookie = main[o.key]
@@ -245,6 +284,9 @@ func genProgram(r *hx.Rng, mode string) program {
 				} else {
 					tag++
 					o.data = make([]byte, 1+r.Intn(5))
+					if r.Chance(1, 12) {
+						o.data = make([]byte, 256+r.Intn(768)) // spans several CompactMap / page boundaries of nothing, but a longer ReadAt
+					}
 					o.data[0] = byte(tag) // distinct payloads: a read identifies the write it saw
 					for i := 1; i < len(o.data); i++ {
 						o.data[i] = byte(r.Intn(256))
@@ -261,10 +303,21 @@ func genProgram(r *hx.Rng, mode string) program {
 						o.lastmod = uint64(1 + r.Intn(100000))
 						o.flags |= 0x08
 					}
+					if dirty && r.Chance(1, 5) {
+						o.data = nil // C01 finding 0
+					} else if dirty && len(written) > 0 && r.Chance(1, 4) {
+						// C01 finding 1: id+cookie+bytes of an earlier write, other metadata
+						w := written[r.Intn(len(written))]
+						o.key, o.cookie, o.data = w.key, w.cookie, w.data
+						o.name, o.flags = []byte("zz"), o.flags|0x02
+					}
 				}
 				switch mode {
-				case "batched":
+				case "batched", "burst":
 					o.fsync = true
+					if mode == "burst" {
+						o.delay = 0
+					}
 				default:
 					o.fsync = r.Bool()
 				}
@@ -286,7 +339,7 @@ func genProgram(r *hx.Rng, mode string) program {
 
 func main() {
 	out := hx.Flags("C38", 100)
-	runtime.GOMAXPROCS(4)
+	runtime.GOMAXPROCS(6)
 	hx.Must(fla9.Set("alsologtostderr", "false"))
 	hx.Must(fla9.Set("stderrthreshold", "FATAL"))
 	base, err := os.MkdirTemp("", "c38-vol")
@@ -301,16 +354,23 @@ func main() {
 	stopping := mk("stopping")
 	stopping.SetStopping()
 
-	out.Rule = "2..4 goroutines x 2..5 calls (<= 10 per history) of Store.WriteVolumeNeedle / ReadVolumeNeedle / DeleteVolumeNeedle on one fresh volume, 2 keys (3/4 of the calls on key 1) x 2 cookies (5/6 the key's main cookie), payloads 1..5 bytes whose first byte is unique per write (1/8 of the writes repeat an earlier needle exactly), optional name/mime/last-modified; goroutines start at a barrier and yield/spin before calls; modes: sync (store not stopping: fsync flag ignored, immediate path), batched (store stopping, every write fsync=true: worker path), mixed (store stopping, fsync random: both paths), stop-midway (own store, SetStopping() called by another goroutine during the run); non-trivial = two calls overlap in real time and a read served a payload; distinct = program + recorded order of Inv/Res events"
+	out.Rule = "2..4 goroutines x 2..5 calls (<= 10 per history) of Store.WriteVolumeNeedle / ReadVolumeNeedle / DeleteVolumeNeedle on one fresh volume, 4 keys 7,5,3,1 (3/5 of the calls on key 7) x 2 cookies (5/6 the key's main cookie), payloads 1..5 bytes (1/12: 256..1023 bytes) whose first byte is unique per write (1/8 of the writes repeat an earlier needle exactly), optional name/mime/last-modified; goroutines start at a barrier and yield/spin before calls; modes: sync (store not stopping: fsync flag ignored, immediate path), batched (store stopping, every write fsync=true: worker path), burst (batched, no pause before writes), mixed (store stopping, fsync random: both paths), stop-midway (own store, SetStopping() called by another goroutine during the run), ro-nwod / ro-nwcd (volume loaded with noWriteOrDelete / noWriteCanDelete), dirty (1/5 of the writes have an empty payload, 1/4 of the others repeat id+cookie+bytes of an earlier write with another name: C01 findings 0 and 1); the first two cases of every shard are the fixed witnesses of these two findings (finding on key 7 in one goroutine, ordinary calls on key 5 in another); non-trivial = at least 3 calls open at the same time and a read served a payload; distinct = program + recorded order of Inv/Res events; batch-appends:k = Sync() calls of the worker preceded by k appends"
 	root := hx.NewRng(out.Seed)
-	modes := []string{"sync", "batched", "mixed", "batched", "mixed", "sync", "batched", "mixed", "stop-midway", "batched"}
+	modes := []string{"sync", "batched", "mixed", "burst", "mixed", "sync", "batched", "dirty", "stop-midway", "burst",
+		"ro-nwod", "batched", "mixed", "dirty", "sync", "ro-nwcd", "burst", "mixed", "stop-midway", "batched"}
 	for i := 0; i < out.N; i++ {
 		r := root.Fork()
 		mode := modes[i%len(modes)]
-		p := genProgram(r, mode)
+		var p program
+		if i < 2 {
+			p = witness(i) // the known findings are exhibited on every run, whatever the seed
+			mode = p.mode
+		} else {
+			p = genProgram(r, mode)
+		}
 		var s *storage.Store
 		switch mode {
-		case "sync":
+		case "sync", "ro-nwod", "witness-0":
 			s = plain
 		case "stop-midway":
 			s = mk(fmt.Sprintf("own%d", i))
@@ -319,6 +379,17 @@ func main() {
 		}
 		vid := needle.VolumeId(i + 1)
 		hx.Must(s.AddVolume(vid, "", storage.NeedleMapInMemory, "000", "", 0, 0, types.HardDriveType))
+		vol := s.GetVolume(vid)
+		wb := vol.VerifWrapBackend()
+		ro := "(false, false)"
+		switch mode {
+		case "ro-nwod":
+			vol.VerifSetNoWriteOrDelete(true)
+			ro = "(true, false)"
+		case "ro-nwcd":
+			vol.VerifSetNoWriteCanDelete(true)
+			ro = "(false, true)"
+		}
 
 		var clock int64
 		start := make(chan struct{})
@@ -371,6 +442,15 @@ func main() {
 		}
 		v := s.GetVolume(vid)
 		datSize, _, _ := v.FileStat()
+		bh := wb.VerifBatchHist()
+		for k, c := range bh {
+			if c > 0 {
+				out.Count(fmt.Sprintf("batch-appends:%d", k), int(c))
+			}
+		}
+		v.VerifUnwrapBackend()
+		sc := &scanner{}
+		hx.Must(storage.ScanVolumeFile(s.Locations[0].Directory, "", vid, storage.NeedleMapInMemory, sc))
 		var fin []string
 		for _, k := range keys {
 			off, size, ok := v.VerifNeedleMapEntry(k)
@@ -384,6 +464,19 @@ func main() {
 		// distribution, non-triviality, canonical form
 		served, overlap := false, false
 		npairs := 0
+		maxOpen := 0
+		for a := range all {
+			open := 0
+			for b := range all {
+				if all[b].inv <= all[a].inv && all[a].inv < all[b].res {
+					open++
+				}
+			}
+			if open > maxOpen {
+				maxOpen = open
+			}
+		}
+		out.Count(fmt.Sprintf("max-overlap:%d", maxOpen), 1)
 		for a := range all {
 			if all[a].served {
 				served = true
@@ -402,7 +495,7 @@ func main() {
 		for _, ops := range p.threads {
 			for _, o := range ops {
 				if o.kind == kWrite {
-					if o.fsync && mode != "sync" {
+					if o.fsync && s != plain {
 						out.Count("write-path:batched(fsync, after SetStopping)", 1)
 					} else {
 						out.Count("write-path:immediate", 1)
@@ -437,9 +530,10 @@ func main() {
 		for k, a := range all {
 			terms[k] = a.term
 		}
-		term := fmt.Sprintf("({| calls := [%s]; fin_reads := [%s]; fin_dat := %d; fin_nm := [%s] |})%%N",
-			strings.Join(terms, "; "), strings.Join(fr, "; "), datSize, strings.Join(fin, "; "))
-		out.Add(term, canon, served && overlap, mode)
+		term := fmt.Sprintf("({| ro := %s; calls := [%s]; fin := {| fo_dat := %d; fo_recs := [%s]; fo_nm := [%s]; fo_reads := [%s] |} |})%%N",
+			ro, strings.Join(terms, "; "), datSize, strings.Join(sc.recs, "; "), strings.Join(fin, "; "), strings.Join(fr, "; "))
+		_ = overlap
+		out.Add(term, canon, served && maxOpen >= 3, mode)
 	}
 	out.Write()
 }
